@@ -1188,6 +1188,78 @@ func ruleC12_4(c *Ctx) {
 			}
 		}
 	}
+	// the same through a local "claim" function: claim(name) fails if the name was seen and records it otherwise
+	for _, call := range allCalls(vl) {
+		var g *ssa.Function
+		if mc, ok := call.Common().Value.(*ssa.MakeClosure); ok {
+			g, _ = mc.Fn.(*ssa.Function)
+		} else if sc := call.Common().StaticCallee(); sc != nil && sc.Pkg == vl.Pkg && (sc.Object() == nil || !sc.Object().Exported()) {
+			g = sc
+		}
+		if g == nil || g.Blocks == nil || len(call.Common().Args) == 0 {
+			continue
+		}
+		nameArg := -1
+		for i, a := range call.Common().Args {
+			if o := org(a); o == "p0.Steps[*].SupplyChainItem.Name" || o == "p0.Inspect[*].SupplyChainItem.Name" {
+				nameArg = i
+			}
+		}
+		if nameArg < 0 || nameArg >= len(g.Params) {
+			continue
+		}
+		prm := ssa.Value(g.Params[nameArg])
+		seenFails, recorded := false, false
+		for _, k := range allCalls(g) {
+			switch calleeName(k) {
+			case "(in_toto.Set).Has":
+				if resolve(k.Common().Args[1], k) == prm && k.Value() != nil {
+					for _, cu := range condUsers(k.Value(), false) {
+						if c.failing(branchTaken(cu, true)) {
+							seenFails = true
+						}
+					}
+				}
+			case "(in_toto.Set).Add":
+				if resolve(k.Common().Args[1], k) == prm {
+					recorded = true
+				}
+			}
+		}
+		for _, b := range g.Blocks {
+			for _, in := range b.Instrs {
+				switch x := in.(type) {
+				case *ssa.Lookup:
+					if resolve(x.Index, x) == prm {
+						v := ssa.Value(x)
+						if x.CommaOk {
+							v = extractOf(x, 1)
+						}
+						if v != nil {
+							for _, cu := range condUsers(v, false) {
+								if c.failing(branchTaken(cu, true)) {
+									seenFails = true
+								}
+							}
+						}
+					}
+				case *ssa.MapUpdate:
+					if resolve(x.Key, x) == prm {
+						recorded = true
+					}
+				}
+			}
+		}
+		okErr := false
+		if e := errResult(call); e != nil {
+			for _, br := range errBranches(e) {
+				okErr = okErr || c.failing(br.NonNil)
+			}
+		}
+		if seenFails && recorded && okErr {
+			uniq++
+		}
+	}
 	c.check(uniq >= 2, R, fname(vl), "step and inspection names are unique across both lists", vl.Pos(), "seen[name] => error for steps and inspections", "duplicate step/inspection names are not rejected")
 }
 
